@@ -249,8 +249,8 @@ def r7(ctx):
             continue
         n += 1
         atoms = set((A.canon(a[0], rmap), a[1]) for a in fn.atoms(c))
-        need = [('this.m_config.readOnly', False), ('(result == #%d)' % tmo, True), ('(this.m_generateSynInterval > #0)', True),
-                ('(timeout >= this.m_generateSynInterval)', True), ('sending', False)]
+        need = [('this.m_config.readOnly', False), ('(result == #%d)' % tmo, True), ('(this.m_generateSynInterval <= #0)', False),
+                ('(timeout < this.m_generateSynInterval)', False), ('sending', False)]
         missing = [a for a in need if a not in atoms]
         st_ok = fn.needs_one_of(c, [('(this.m_state == #%d)' % inv['bs_noSignal'], True), ('(this.m_state == #%d)' % inv['bs_skip'], True)])
         ctx.ob('C03.R7', fn, c, not missing and st_ok, 'AUTO-SYN send', 'missing guards %s; only in noSignal/skip: %s' % (missing, st_ok))
